@@ -4774,6 +4774,12 @@ func (t *Terminal) Loop() error {
 				t.listener.Close()
 			}
 			t.tui.Close()
+			// The result is printed next. If nobody reads it any more, that write
+			// is the end of the process (SIGPIPE): stop what has been started first
+			t.killPreviewNow()
+			if t.readerKiller != nil {
+				t.readerKiller()
+			}
 			code = getCode()
 			if code <= ExitNoMatch && t.history != nil {
 				t.history.append(string(t.input))
